@@ -194,6 +194,21 @@ def _module_mutables(ctx) -> dict:
                 isinstance(v, ast.Call) and isinstance(v.func, ast.Name) and v.func.id in ("dict", "list", "set", "defaultdict", "deque")
             ):
                 out[(mn, tg)] = type(v).__name__
+    # class-body names bound to mutable values: one object shared by every instance
+    for mn, m in ctx.index.modules.items():
+        for cl in [n for n in ast.walk(m.tree) if isinstance(n, ast.ClassDef)]:
+            for st in cl.body:
+                tg = v = None
+                if isinstance(st, ast.Assign) and len(st.targets) == 1 and isinstance(st.targets[0], ast.Name):
+                    tg, v = st.targets[0].id, st.value
+                elif isinstance(st, ast.AnnAssign) and isinstance(st.target, ast.Name) and st.value is not None:
+                    tg, v = st.target.id, st.value
+                if tg is None:
+                    continue
+                if isinstance(v, (ast.Dict, ast.List, ast.Set, ast.DictComp, ast.ListComp, ast.SetComp)) or (
+                    isinstance(v, ast.Call) and isinstance(v.func, ast.Name) and v.func.id in ("dict", "list", "set", "defaultdict", "deque")
+                ):
+                    out[(mn, cl.name + "." + tg)] = "class attribute " + type(v).__name__
     return out
 
 
@@ -328,6 +343,37 @@ def rule_r2(ctx) -> RuleResult:
                 rr.bad(Finding("C09.R2", m.relpath, dotted, unparse(n)[:80],
                                "`{}` is bound to {} without a copy (in {}: `{}`) and mutated here ({}): contexts created later, with "
                                "other options, see the change".format(unparse(tgt), shared, where, unparse(asg)[:60], how), n.lineno))
+    # mutation of a class-level mutable through an instance, the class or cls
+    class_level = {}
+    for (mn, name), kind in mm.items():
+        if kind.startswith("class attribute"):
+            cl, attr = name.split(".", 1)
+            class_level[attr] = (mn, cl)
+    # an attribute that __init__ (re)binds per instance shadows the class attribute
+    for attr in list(class_level):
+        mn, cl = class_level[attr]
+        init = mn + "." + cl + ".__init__"
+        if ctx.index.has_func(init):
+            for n in walk_no_nested(ctx.index.func(init)):
+                tgs = n.targets if isinstance(n, ast.Assign) else [n.target] if isinstance(n, ast.AnnAssign) and n.value is not None else []
+                if any(isinstance(t, ast.Attribute) and t.attr == attr and isinstance(t.value, ast.Name) and t.value.id == "self" for t in tgs):
+                    class_level.pop(attr, None)
+    for dotted, m, f in ctx.index.all_functions():
+        for n in walk_no_nested(f):
+            tgt = how = None
+            if isinstance(n, ast.Call) and isinstance(n.func, ast.Attribute) and n.func.attr in MUTATORS:
+                tgt, how = n.func.value, "." + n.func.attr + "()"
+            elif isinstance(n, (ast.Assign, ast.AugAssign)):
+                for t in (n.targets if isinstance(n, ast.Assign) else [n.target]):
+                    if isinstance(t, ast.Subscript):
+                        tgt, how = t.value, "[...] ="
+            if isinstance(tgt, ast.Attribute) and tgt.attr in class_level and isinstance(tgt.value, ast.Name) \
+                    and tgt.value.id in ("self", "ctx", "wtp", "cls", class_level[tgt.attr][1]):
+                mn, cl = class_level[tgt.attr]
+                rr.bad(Finding("C09.R2", m.relpath, dotted, unparse(n)[:80],
+                               "`{}.{}` is created once in the class body, so this mutation ({}) is shared by every context in the process: "
+                               "a context created with other options (lang_code, extension tags, ...) reads entries written by an earlier one".format(
+                                   cl, tgt.attr, how), n.lineno))
     # mutation of an *inner* object reached through a one-level copy
     for dotted, m, f in ctx.index.all_functions():
         for n in walk_no_nested(f):
@@ -602,6 +648,108 @@ def rule_r8(ctx) -> RuleResult:
     return rr
 
 
+# chunk-level Lua tables that may keep their content for the life of the runtime
+LUA_CACHE_ALLOW = {
+    "loader_cache": "compiled chunk functions keyed by module name; a module cannot change a function it is given "
+                    "(setfenv/debug are denied) and each use gets its own environment",
+}
+
+
+def rule_r9(ctx) -> RuleResult:
+    """Lua-side analogue of R1: a chunk-level table of the sandbox sources that is written inside a
+    function (a cache filled while modules run) must be emptied by one of the reset functions the
+    host calls -- `_lua_reset_env` (every top-level invocation) or the function handed to Python as
+    the per-page clear hook -- or be allow-listed with a reason."""
+    rr = RuleResult("C09.R9", "Lua-side caches filled while modules run are emptied by a reset function", min_instances=2)
+    p1 = ctx.lua.file("_sandbox_phase1.lua")
+    # reset functions: _lua_reset_env and every function returned to Python by the chunk
+    resets = {}
+    f = p1.func_named("_lua_reset_env")
+    if f is None:
+        raise AnalysisError("_lua_reset_env vanished")
+    resets["_lua_reset_env"] = f
+    for st in p1.chunk.body:
+        if st.kind == "return":
+            for e in st.exprs:
+                if e.kind == "table":
+                    for _, v in e.fields:
+                        o = L.origin_of(p1, v)
+                        if o.kind == "function" and v.kind == "name":
+                            resets[v.id] = o.node
+    # the per-page hook must really be wired on the Python side
+    sp = ctx.fn("core.Wtp.start_page")
+    if not any(isinstance(c, ast.Call) and unparse(c.func).endswith("lua_clear_loaddata_cache") for c in ast.walk(sp)):
+        raise AnalysisError("start_page no longer calls lua_clear_loaddata_cache")
+    for lf in (p1, ctx.lua.file("_sandbox_phase2.lua")):
+        tabs = {d for d in lf.res.decls if d.func is lf.chunk and d.kind == "local" and d.value is not None and d.value.kind == "table"}
+        written = {}
+        cleared = set()
+        for n in L.walk(lf.chunk):
+            if n.kind != "assign":
+                continue
+            fn = lf.res.func_of.get(n)
+            for i, t in enumerate(n.targets):
+                v = n.exprs[i] if i < len(n.exprs) else None
+                if t.kind == "index" and t.obj.kind == "name":
+                    d = lf.res.ref.get(t.obj)
+                    if d in tabs and fn is not lf.chunk:
+                        if any(fn is r for r in resets.values()):
+                            if v is not None and v.kind == "nil":
+                                cleared.add(d)
+                        else:
+                            written.setdefault(d, []).append(n)
+                elif t.kind == "name":
+                    d = lf.res.ref.get(t)
+                    if d in tabs and any(fn is r for r in resets.values()) and v is not None and v.kind == "table" and not v.fields:
+                        cleared.add(d)
+        for d, sites in sorted(written.items(), key=lambda x: x[0].name):
+            where = "{}:{}".format(lf.name, d.name)
+            if d in cleared:
+                rr.ok(where, "emptied by a reset function", {"table": d.name, "writes": len(sites)})
+            elif d.name in LUA_CACHE_ALLOW:
+                rr.ok(where, "allow-listed: " + LUA_CACHE_ALLOW[d.name], {"table": d.name, "allow": True})
+            else:
+                n = sites[0]
+                rr.bad(Finding("C09.R9", "src/wikitextprocessor/lua/" + lf.name, d.name, L.text(n.targets[0]) + " = " + L.text(n.exprs[0]),
+                               "the chunk-level table `{}` is filled while modules run and no reset function empties it: what one page "
+                               "stores (and may later mutate in place) is handed to every later page of the same context".format(d.name), n.line))
+    return rr
+
+
+def rule_r10(ctx, cg: CallGraph) -> RuleResult:
+    """A memoised method returns, for an argument seen before, what it computed on an earlier page.
+    That is only sound if it neither writes nor allocates per-page state: no function decorated
+    with lru_cache/cache may reach (through E3) a statement that mutates a context attribute."""
+    rr = RuleResult("C09.R10", "memoised functions neither write nor allocate per-page state", min_instances=1)
+    memo = []
+    for dotted, m, f in ctx.index.all_functions():
+        if any(("lru_cache" in unparse(d)) or unparse(d) in ("cache", "functools.cache") for d in f.decorator_list):
+            memo.append((dotted, m, f))
+    if not memo:
+        rr.ok("package", "no memoised function")
+        return rr
+    per_page = CONFIRMED_PER_PAGE | CONFIRMED_PER_PARSE
+    for dotted, m, f in memo:
+        hit = None
+        for callee in sorted(cg.closure([dotted])):
+            if not ctx.index.has_func(callee):
+                continue
+            for a, node, kind in _mutations(ctx.index.func(callee), callee.startswith("core.Wtp."), False):
+                if a in per_page:
+                    hit = (callee, a, node)
+                    break
+            if hit:
+                break
+        if hit:
+            callee, a, node = hit
+            rr.bad(Finding("C09.R10", m.relpath, dotted, "@lru_cache on {} -> {}: {}".format(dotted.split(".")[-1], callee, unparse(node)[:50]),
+                           "a memoised function reaches a write of the per-page attribute `{}`: on a later page the cached result refers to "
+                           "state (e.g. cookie numbers) of the page on which it was first computed".format(a), f.lineno))
+        else:
+            rr.ok(dotted, "memoised and free of per-page effects", {"fn": dotted, "closure": len(cg.closure([dotted]))})
+    return rr
+
+
 def run(ctx) -> list:
     cg = CallGraph(ctx.index)
-    return [rule_r1(ctx, cg), rule_r2(ctx), rule_r3(ctx), rule_r4(ctx), rule_r5(ctx), rule_r6(ctx), rule_r7(ctx), rule_r8(ctx)]
+    return [rule_r1(ctx, cg), rule_r2(ctx), rule_r3(ctx), rule_r4(ctx), rule_r5(ctx), rule_r6(ctx), rule_r7(ctx), rule_r8(ctx), rule_r9(ctx), rule_r10(ctx, cg)]
